@@ -61,9 +61,35 @@ class Env:
 
 
 def scalar(s):
+    if isinstance(s, list) and s[0] == 'n':                  # ['n', dtype, re, im]: a numpy scalar (strongly typed)
+        dt = np.dtype(s[1])
+        return dt.type(complex(s[2], s[3])) if dt.kind == 'c' else dt.type(s[2])
     if isinstance(s, list):
         return complex(s[1], s[2])
     return s
+
+
+UNARY = {'real': np.real, 'imag': np.imag, 'abs': np.abs, 'sqrt': np.sqrt, 'conj': np.conj, 'negative': np.negative,
+         'square': np.square}
+
+
+def index_arg(spec):
+    """index expression of a getitem/setitem step: per axis an int, 'all', 'ell', ['s', lo, hi, step], ['m', bools], ['i', ints]"""
+    out = []
+    for x in spec:
+        if x == 'all':
+            out.append(slice(None))
+        elif x == 'ell':
+            out.append(Ellipsis)
+        elif isinstance(x, list) and x[0] == 's':
+            out.append(slice(x[1], x[2], x[3]))
+        elif isinstance(x, list) and x[0] == 'm':
+            out.append(np.array(x[1], dtype=bool))
+        elif isinstance(x, list) and x[0] == 'i':
+            out.append(np.array(x[1], dtype=np.intp))
+        else:
+            out.append(int(x))
+    return tuple(out)
 
 
 # ------------------------------------------------------------------------------------------------
@@ -199,8 +225,12 @@ def dense_expect(st, R, before):
         return A + s * B
     if op in ('scale', 'rscale', 'iscale', 'iscale_prefactor'):
         return A * scalar(st['s'])
-    if op == 'div':
+    if op in ('div', 'idiv'):
         return A / scalar(st['s'])
+    if op == 'neg':
+        return -A
+    if op == 'getitem' and all(x == 'all' or isinstance(x, int) or (isinstance(x, list) and x[0] == 's') for x in st['idx']):
+        return A[index_arg(st['idx'])]
     if op in ('transpose', 'itranspose'):
         return np.transpose(A, st.get('_axes_idx'))
     if op in ('conj', 'iconj'):
@@ -217,7 +247,7 @@ def dense_expect(st, R, before):
 # ------------------------------------------------------------------------------------------------
 
 INPLACE = {'iadd', 'isub', 'iadd_prefactor_other', 'iscale', 'iscale_prefactor', 'itranspose', 'iconj',
-           'imake_contiguous'}
+           'imake_contiguous', 'idiv', 'iunary', 'setitem'}
 
 
 def direct_combine(a, groups):
@@ -336,6 +366,29 @@ def run_step(env, st):
     if op == 'imake_contiguous':
         a._imake_contiguous()
         return None
+    if op == 'idiv':
+        a /= scalar(st['s'])
+        return None
+    if op == 'neg':
+        return -a
+    if op == 'iunary':
+        a.iunary_blockwise(UNARY[st['f']])
+        return None
+    if op == 'unary':
+        return a.unary_blockwise(UNARY[st['f']])
+    if op == 'complex_conj':
+        return a.complex_conj()
+    if op == 'norm':
+        return a.norm(st.get('ord'))
+    if op == 'getitem':
+        return a[index_arg(st['idx'])]
+    if op == 'setitem':
+        a[index_arg(st['idx'])] = scalar(st['s'])
+        return None
+    if op == 'take_slice':
+        return a.take_slice(st['indices'], st['axes'])
+    if op == 'squeeze':
+        return a.squeeze() if st.get('axes') is None else a.squeeze(st['axes'])
     raise ValueError('unknown op ' + op)
 
 
